@@ -231,3 +231,15 @@ Proof.
   - rewrite (H1 i Hi). unfold found_result. cbn. split; discriminate.
   - destruct (H2 Hn) as [off' [r' ->]]. cbn. split; discriminate.
 Qed.
+
+(* F1 (DESIGN section 7): the loop as pinned in /repo returns an offset short by the number of
+   false sync bytes.  Witness = the design-phase probe: 47 00 00 00 | 47 00 00 10 .. *)
+Lemma f1_pinned_refuted :
+  exists l i off r, is_bytes l /\ first_plausible l i /\
+    sync_pinned (start l E.EOF) = Ok (off, r) /\ off <> N.of_nat i /\ rest r = skipn i l.
+Proof.
+  exists [71; 0; 0; 0; 71; 0; 0; 16; 1; 2], 4%nat, 3, (mkR [71; 0; 0; 16; 1; 2] None E.EOF).
+  split; [repeat constructor|]. split.
+  - split; [reflexivity|]. intros j Hj. destruct j as [|[|[|[|j]]]]; try reflexivity; lia.
+  - split; [reflexivity|]. split; [discriminate|reflexivity].
+Qed.
